@@ -152,19 +152,29 @@ impl Prop for C13 {
         f.push(Family::new(
             "arithmetic",
             Mode::Full,
-            "based literals as operands of + - * / (with each other and with decimals): the value is that of ordinary arithmetic",
+            "based literals (incl. 0xAF / 0xCD / 0XCD, whose digits spell a currency code) as operands of + - * / with each other and with decimals, in 4 spacings ('a op b', 'aopb', 'a opb', 'aop b') and inside parentheses: the value is that of ordinary arithmetic",
             move |ch| {
-                let lits: [(&str, f64); 6] = [("0x1F", 31.0), ("0o17", 15.0), ("0b101", 5.0), ("0xff", 255.0), ("12", 12.0), ("0x10", 16.0)];
+                let lits: [(&str, f64); 10] = [("0x1F", 31.0), ("0o17", 15.0), ("0b101", 5.0), ("0xff", 255.0), ("12", 12.0), ("0x10", 16.0), ("0xAF", 175.0), ("0xCD", 205.0), ("0XCD", 205.0), ("1", 1.0)];
                 let (at, av) = *ch.pick(&lits);
                 let (bt, bv) = *ch.pick(&lits);
                 let op = *ch.pick(&['+', '-', '*', '/']);
+                let spacing = ch.choose(5);
+                if !at.starts_with('0') && !bt.starts_with('0') {
+                    return None; // two decimals: not this property (and 'd/m' shapes belong to C09)
+                }
                 let want = match op {
                     '+' => av + bv,
                     '-' => av - bv,
                     '*' => av * bv,
                     _ => crate::model::arith::guarded_div(av, bv),
                 };
-                let text = format!("{} {} {}", at, op, bt);
+                let (text, want) = match spacing {
+                    0 => (format!("{} {} {}", at, op, bt), want),
+                    1 => (format!("{}{}{}", at, op, bt), want),
+                    2 => (format!("{} {}{}", at, op, bt), if op == '-' || op == '+' { want } else { want }),
+                    3 => (format!("{}{} {}", at, op, bt), want),
+                    _ => (format!("({}{}{})*2", at, op, bt), want * 2.0),
+                };
                 Some(Case::Line(LineCase::new(text, Expect::Unspecified, "arith").with_number(want)))
             },
         ));
